@@ -7,6 +7,7 @@ import (
 	"path/filepath"
 	"sort"
 	"strings"
+	"sync"
 
 	ipfslog "berty.tech/go-ipfs-log"
 	"berty.tech/go-ipfs-log/entry"
@@ -14,7 +15,9 @@ import (
 	"berty.tech/go-orbit-db/accesscontroller"
 	"berty.tech/go-orbit-db/cache/cacheleveldown"
 	"berty.tech/go-orbit-db/iface"
+	"berty.tech/go-orbit-db/stores"
 	datastore "github.com/ipfs/go-datastore"
+	"github.com/libp2p/go-libp2p/p2p/host/eventbus"
 	"verifharness/sim"
 )
 
@@ -82,7 +85,29 @@ func runC05(r *Run) error {
 		canon.Ident.ID(repB.Orbit.Identity().ID)
 		canon.Ident.ID(repC0.Orbit.Identity().ID)
 		ac := &accesscontroller.CreateAccessControllerOptions{Access: map[string][]string{"write": {repA.Orbit.Identity().ID, repB.Orbit.Identity().ID, repC0.Orbit.Identity().ID}}}
-		stA, err := repA.Orbit.Create(ctx, "db-"+label, "keyvalue", &orbitdb.CreateDBOptions{AccessController: ac})
+		// the bus of store A is observed: the marker "repl" is put into the effect log at the very
+		// position where EventReplicated is emitted ("reported as replicated"), synchronously
+		var replMu sync.Mutex
+		replSeen := map[string]bool{}
+		busA := &sim.ObsBus{Inner: eventbus.NewBus(), OnEmit: func(evt interface{}) {
+			ev, ok := evt.(stores.EventReplicated)
+			if !ok {
+				return
+			}
+			var hs []string
+			replMu.Lock()
+			for _, e := range ev.Entries {
+				if h := e.GetHash().String(); !replSeen[h] {
+					replSeen[h] = true
+					hs = append(hs, h)
+				}
+			}
+			replMu.Unlock()
+			if len(hs) > 0 {
+				env.AddMarker(idxA, "repl", strings.Join(hs, ","))
+			}
+		}}
+		stA, err := repA.Orbit.Create(ctx, "db-"+label, "keyvalue", &orbitdb.CreateDBOptions{AccessController: ac, EventBus: busA})
 		if err != nil {
 			return err
 		}
@@ -146,8 +171,20 @@ func runC05(r *Run) error {
 						got = append(got, e.GetHash().String())
 					}
 				}
-				if len(got) > 0 {
-					env.AddMarker(idxA, "repl", strings.Join(got, ","))
+				// (the "repl" markers were placed by the observed bus at the emission of the events;
+				// entries that are new in the log but were announced by no event get one now)
+				var unannounced []string
+				replMu.Lock()
+				for _, h := range got {
+					if !replSeen[h] {
+						replSeen[h] = true
+						unannounced = append(unannounced, h)
+					}
+				}
+				replMu.Unlock()
+				if len(unannounced) > 0 {
+					env.AddMarker(idxA, "repl", strings.Join(unannounced, ","))
+					r.Count("repl-marker-after-settle")
 				}
 				raw, _ := stA.Cache().Get(ctx, datastoreKey("_remoteHeads"))
 				if len(got) > 0 {
